@@ -23,6 +23,8 @@
 #include "types.h"
 #include "convert.h"
 #include "config.h"
+#include "object.h"
+#include <stddef.h>
 
 /* reach the file-local `nodeGlobal` */
 #include "config/config_global.c"
@@ -133,8 +135,14 @@ static int get_handler(void *ptr, MPT_INTERFACE(convertable) *val, const MPT_INT
 	return 0;
 }
 /* result class of mpt_config_getp / mpt_config_get: y = found, n = MissingData, t = BadType */
+/* An element that holds the default metatype (mpt_metatype_default(): what an assignment without
+ * value leaves behind) is read as an element without value: its conversions answer BadType
+ * where an element without metatype answers MissingData, and asked for the value itself it
+ * hands out that shared object.  The harness reports both states alike (see props/c10.py, trusted). */
+static int novalue;
 static void put_class(int r)
 {
+	if (novalue && r == MPT_ERROR(BadType)) r = MPT_ERROR(MissingData);
 	if (r >= 0) vh_add("y");
 	else if (r == MPT_ERROR(MissingData)) vh_add("n");
 	else if (r == MPT_ERROR(BadType)) vh_add("t");
@@ -163,6 +171,7 @@ static void put_conv(int r, MPT_INTERFACE(convertable) *cv, const void *seen)
 	if (r < 0) { put_class(r); return; }
 	if (!cv) { vh_add("Z"); return; }
 	if ((const void *) cv != seen) { vh_add("W"); return; }
+	if (novalue && (const void *) cv == (const void *) mpt_metatype_default()) { vh_add("n"); return; }
 	if (!meta_text((MPT_INTERFACE(metatype) *) cv, &b, &l)) { vh_add("E"); return; }
 	vh_add("V"); venc(b, l);
 }
@@ -183,6 +192,7 @@ static void observe_cfg(MPT_INTERFACE(config) *cfg, const struct spec *s, int co
 		mpt_path_set(&p, s->str, -1);
 	}
 	r = mpt_config_query(cfg, &p, get_handler, &c);
+	novalue = (r >= 0 && c.found == 1 && c.val == (const void *) mpt_metatype_default());
 	if (r < 0 || !c.found) vh_add("A");
 	else if (c.found == 1) vh_add("E");
 	else { vh_add("V"); venc(c.base, c.len); }
@@ -307,6 +317,67 @@ static void run_global(int ntok, char **tok)
 			r = mpt_config_set(cfg[s.h], s.str, v, s.sep, s.end);
 			vh_tok("%s", r >= 0 ? "ok" : "no");
 		}
+		else if (!strcmp(op, "z")) {
+			/* assignment without value through the interface: configAssign(cfg, path, NULL)
+			 * -> mpt_node_assign(.., NULL) / mpt_meta_set(&node->_meta, NULL) */
+			MPT_STRUCT(path) p = MPT_PATH_INIT;
+			MPT_INTERFACE(config) *self = cfg[s.h];
+			if (!self) MPT_metatype_convert(mts[s.h], MPT_ENUM(TypeConfigPtr), &self);
+			if (s.str) {
+				p.sep = s.sep;
+				p.assign = 0;
+				mpt_path_set(&p, s.str, -1);
+			}
+			r = self->_vptr->assign(self, &p, 0);
+			/* the type code of what the element holds now: > 0 = it still holds a value */
+			vh_tok("%s", r > 0 ? "ok+" : r == 0 ? "ok" : "no");
+		}
+		else if (!strcmp(op, "t")) {
+			/* assignment of a typed value through the interface: s = string, p = pointer to a
+			 * NULL string (empty text), v = vector of char (exactly the bytes, nothing behind
+			 * them), b = array of char, i = an integer (no text: refused) */
+			const char *ty = tok[i++];
+			size_t n;
+			uint8_t *raw = vh_unhex(tok[i++], &n);
+			uint8_t *exact = (uint8_t *) malloc(n ? n : 1);
+			char *str = (char *) malloc(n + 1);
+			const char *nul = 0;
+			struct iovec vec;
+			int32_t num = 4711;
+			MPT_STRUCT(array) arr = MPT_ARRAY_INIT;
+			MPT_STRUCT(value) val = MPT_VALUE_INIT(0, 0);
+			MPT_STRUCT(path) p = MPT_PATH_INIT;
+			MPT_INTERFACE(config) *self = cfg[s.h];
+			if (!self) MPT_metatype_convert(mts[s.h], MPT_ENUM(TypeConfigPtr), &self);
+			if (s.str) {
+				p.sep = s.sep;
+				p.assign = 0;
+				mpt_path_set(&p, s.str, -1);
+			}
+			if (n) { memcpy(exact, raw, n); memcpy(str, raw, n); }
+			str[n] = 0;
+			vec.iov_base = exact;
+			vec.iov_len = n;
+			switch (ty[0]) {
+			  case 's': MPT_value_set(&val, 's', &str); break;
+			  case 'p': MPT_value_set(&val, 's', &nul); break;
+			  case 'v': MPT_value_set(&val, MPT_type_toVector('c'), &vec); break;
+			  case 'b': {
+				const MPT_STRUCT(type_traits) *traits = mpt_type_traits('c');
+				MPT_STRUCT(buffer) *buf = mpt_array_reserve(&arr, n, traits);
+				if (!buf || mpt_buffer_set(buf, traits, 0, raw, n) < 0) { vh_tok("F:array"); return; }
+				MPT_value_set(&val, MPT_ENUM(TypeArray), &arr);
+				break;
+			  }
+			  default: MPT_value_set(&val, 'i', &num); break;
+			}
+			r = self->_vptr->assign(self, &p, &val);
+			vh_tok("%s", r >= 0 ? "ok" : "no");
+			/* the store keeps nothing of the caller's value */
+			memset(exact, 0x5a, n); memset(str, 0x5a, n);
+			free(exact); free(str); free(raw);
+			mpt_array_clone(&arr, 0);
+		}
 		else if (!strcmp(op, "l")) {
 			/* walk the collection handed to the query handler */
 			MPT_STRUCT(path) p = MPT_PATH_INIT;
@@ -381,6 +452,189 @@ static void run_global(int ntok, char **tok)
 		vh_add("|");
 		dump_nodes(nodeGlobal);
 	}
+}
+
+/* ---------------------------------------------------------------- kind M */
+/* mpt_meta_set on ONE metatype reference: every way meta_set.c can take.  Besides what the
+ * library makes itself (text in the basic / buffer metatype, the default metatype, a view of
+ * the process-wide configuration = a real TypeConfigPtr value) the harness supplies values
+ * that ARE an object, a configuration or an iterator and accept / refuse what they are asked. */
+struct hcell {
+	MPT_INTERFACE(metatype) _mt;
+	MPT_INTERFACE(object) _obj;
+	MPT_INTERFACE(config) _cfg;
+	MPT_INTERFACE(iterator) _it;
+	int kind, accept, has;
+	uint8_t *text;
+	size_t len;
+};
+#define HCELL(p, m) ((struct hcell *) ((char *) (p) - offsetof(struct hcell, m)))
+static int hcell_unrefs, hcell_bad;
+static int hcell_take(struct hcell *c, const MPT_STRUCT(value) *val)
+{
+	const void *src = val->_addr;
+	const char *txt;
+	size_t len;
+	if (!(txt = mpt_data_tostring(&src, val->_type, &len))) return MPT_ERROR(BadType);
+	free(c->text);
+	c->text = (uint8_t *) malloc(len ? len : 1);
+	if (len) memcpy(c->text, txt, len);
+	c->len = len;
+	c->has = 1;
+	return 0;
+}
+static int hcellConv(MPT_INTERFACE(convertable) *conv, MPT_TYPE(type) type, void *ptr)
+{
+	struct hcell *c = (struct hcell *) conv;
+	if (!type) {
+		static const uint8_t fmt[] = { 0 };
+		if (ptr) *((const uint8_t **) ptr) = fmt;
+		return MPT_ENUM(TypeMetaPtr);
+	}
+	if (type == MPT_ENUM(TypeMetaPtr)) { if (ptr) *((void **) ptr) = &c->_mt; return type; }
+	if (type == MPT_ENUM(TypeObjectPtr) && c->kind == 'o') { if (ptr) *((void **) ptr) = &c->_obj; return type; }
+	if (type == MPT_ENUM(TypeConfigPtr) && c->kind == 'c') { if (ptr) *((void **) ptr) = &c->_cfg; return type; }
+	if (type == MPT_ENUM(TypeIteratorPtr) && c->kind == 'i') { if (ptr) *((void **) ptr) = &c->_it; return type; }
+	return MPT_ERROR(BadType);
+}
+static void hcellUnref(MPT_INTERFACE(metatype) *mt)
+{
+	struct hcell *c = (struct hcell *) mt;
+	++hcell_unrefs;
+	free(c->text);
+	free(c);
+}
+static uintptr_t hcellRef(MPT_INTERFACE(metatype) *mt) { (void) mt; return 0; }
+static MPT_INTERFACE(metatype) *hcellClone(const MPT_INTERFACE(metatype) *mt) { (void) mt; return 0; }
+static int hcellProp(const MPT_INTERFACE(object) *obj, MPT_STRUCT(property) *pr) { (void) obj; (void) pr; return MPT_ERROR(BadOperation); }
+static int hcellSetProp(MPT_INTERFACE(object) *obj, const char *name, MPT_INTERFACE(convertable) *src)
+{
+	struct hcell *c = HCELL(obj, _obj);
+	MPT_STRUCT(value) val = MPT_VALUE_INIT(0, 0);
+	if (name) ++hcell_bad;
+	if (!c->accept) return MPT_ERROR(BadValue);
+	if (!src) { c->has = 0; return 0; }
+	if (src->_vptr->convert(src, MPT_ENUM(TypeValue), &val) < 0) return MPT_ERROR(BadType);
+	return hcell_take(c, &val);
+}
+static int hcellQuery(const MPT_INTERFACE(config) *cfg, const MPT_STRUCT(path) *p, MPT_TYPE(config_handler) fcn, void *ctx)
+{ (void) cfg; (void) p; (void) fcn; (void) ctx; return MPT_ERROR(BadOperation); }
+static int hcellAssign(MPT_INTERFACE(config) *cfg, const MPT_STRUCT(path) *p, const MPT_STRUCT(value) *val)
+{
+	struct hcell *c = HCELL(cfg, _cfg);
+	if (p) ++hcell_bad;
+	if (!c->accept) return MPT_ERROR(BadOperation);
+	if (!val) { c->has = 0; return 0; }
+	return hcell_take(c, val);
+}
+static int hcellRemove(MPT_INTERFACE(config) *cfg, const MPT_STRUCT(path) *p) { (void) cfg; (void) p; return MPT_ERROR(BadOperation); }
+static const MPT_STRUCT(value) *hcellValue(MPT_INTERFACE(iterator) *it) { (void) it; return 0; }
+static int hcellAdvance(MPT_INTERFACE(iterator) *it) { (void) it; return 0; }
+static int hcellReset(MPT_INTERFACE(iterator) *it)
+{
+	struct hcell *c = HCELL(it, _it);
+	return c->accept ? 0 : MPT_ERROR(BadOperation);
+}
+static MPT_INTERFACE(metatype) *hcell_new(int kind, int accept, const uint8_t *txt, size_t len)
+{
+	static const MPT_INTERFACE_VPTR(metatype) mvt = { { hcellConv }, hcellUnref, hcellRef, hcellClone };
+	static const MPT_INTERFACE_VPTR(object) ovt = { hcellProp, hcellSetProp };
+	static const MPT_INTERFACE_VPTR(config) cvt = { hcellQuery, hcellAssign, hcellRemove };
+	static const MPT_INTERFACE_VPTR(iterator) ivt = { hcellValue, hcellAdvance, hcellReset };
+	struct hcell *c = (struct hcell *) calloc(1, sizeof(*c));
+	c->_mt._vptr = &mvt;
+	c->_obj._vptr = &ovt;
+	c->_cfg._vptr = &cvt;
+	c->_it._vptr = &ivt;
+	c->kind = kind;
+	c->accept = accept;
+	if (txt) {
+		c->text = (uint8_t *) malloc(len ? len : 1);
+		if (len) memcpy(c->text, txt, len);
+		c->len = len;
+		c->has = 1;
+	}
+	return &c->_mt;
+}
+static const char view_key[] = "mset.x";
+static void run_metaset(int ntok, char **tok)
+{
+	MPT_INTERFACE(metatype) *cell = 0, *view = 0;
+	int i = 2;
+	while (i < ntok) {
+		const char *op = tok[i++];
+		MPT_INTERFACE(metatype) *before = cell;
+		int r = 0, installed = 0;
+		hcell_unrefs = 0;
+		if (!strcmp(op, "s") || !strcmp(op, "v")) {
+			size_t n;
+			uint8_t *raw = vh_unhex(tok[i++], &n);
+			uint8_t *exact = (uint8_t *) malloc(n ? n : 1);
+			char *str = (char *) malloc(n + 1);
+			struct iovec vec;
+			MPT_STRUCT(value) val = MPT_VALUE_INIT(0, 0);
+			if (n) { memcpy(exact, raw, n); memcpy(str, raw, n); }
+			str[n] = 0;
+			vec.iov_base = exact;
+			vec.iov_len = n;
+			if (op[0] == 's') MPT_value_set(&val, 's', &str);
+			else MPT_value_set(&val, MPT_type_toVector('c'), &vec);
+			r = mpt_meta_set(&cell, &val);
+			memset(exact, 0x5a, n); memset(str, 0x5a, n);
+			free(exact); free(str); free(raw);
+		}
+		else if (!strcmp(op, "i")) {
+			int32_t num = 4711;
+			MPT_STRUCT(value) val = MPT_VALUE_INIT('i', &num);
+			r = mpt_meta_set(&cell, &val);
+		}
+		else if (!strcmp(op, "0")) {
+			r = mpt_meta_set(&cell, 0);
+		}
+		else {
+			/* install another kind of value (the old one is released by the harness) */
+			const char *mode = tok[i++];
+			MPT_INTERFACE(metatype) *nc = 0;
+			if (!strcmp(op, "view")) {
+				MPT_STRUCT(path) p = MPT_PATH_INIT;
+				mpt_path_set(&p, view_key, -1);
+				nc = mpt_config_global(&p);
+				view = nc;
+			}
+			else if (!strcmp(op, "it")) nc = hcell_new('i', mode[0] == 'a', (const uint8_t *) "it", 2);
+			else nc = hcell_new(op[0], mode[0] == 'a', 0, 0);
+			if (cell) cell->_vptr->unref(cell);
+			if (before == view && nc != view) view = 0;
+			cell = nc;
+			installed = 1;
+			hcell_unrefs = 0;
+		}
+		vh_tok("m:%s|%s|", r >= 0 ? "ok" : "e", installed ? "+" : cell == before ? "=" : "!");
+		if (!cell) vh_add("0|E");
+		else if (cell == mpt_metatype_default()) vh_add("d|E");
+		else if (cell == view) {
+			/* what the view's element in the process-wide configuration holds */
+			struct getctx c = { 0, 0, 0, 0 };
+			MPT_STRUCT(path) p = MPT_PATH_INIT;
+			mpt_path_set(&p, view_key, -1);
+			vh_add("w|");
+			if (mpt_config_query(0, &p, get_handler, &c) < 0 || c.found < 2) vh_add("E");
+			else { vh_add("V"); venc(c.base, c.len); }
+		}
+		else if (cell->_vptr->unref == hcellUnref) {
+			struct hcell *c = (struct hcell *) cell;
+			vh_add("%c%c|", c->kind, c->accept ? '+' : '-');
+			if (c->has) { vh_add("V"); venc(c->text, c->len); } else vh_add("E");
+		}
+		else {
+			const uint8_t *b; size_t l;
+			vh_add("t|");
+			if (meta_text(cell, &b, &l)) { vh_add("V"); venc(b, l); } else vh_add("E");
+		}
+		vh_add("|u%d", hcell_unrefs);
+		if (hcell_bad) vh_add("F:args");
+	}
+	if (cell) cell->_vptr->unref(cell);
 }
 
 /* ---------------------------------------------------------------- kind J */
@@ -604,6 +858,7 @@ static void run_case(int ntok, char **tok)
 	switch (tok[1][0]) {
 	  case 'G': run_global(ntok, tok); break;
 	  case 'J': run_items(ntok, tok); break;
+	  case 'M': run_metaset(ntok, tok); break;
 	  case 'P': run_path(ntok, tok); break;
 	  default: break;
 	}
